@@ -495,8 +495,11 @@ def replay_http_cancel(inputs, ob):
     """Real HTTP test client: open a stream, cancel it, use it again; look at what the state saw."""
     import lib_stream_native as N
 
-    N.reset(script="emit", on_cancel_raises=bool(inputs.get("on_cancel_raises", False)))
     second = inputs.get("second", "exchange")
+    # a session with nothing live on the server (the whole output arrived with /init): a producer that emits and
+    # finishes in its first step
+    complete_at_init = second == "iterate" and inputs.get("live_on_server") is False
+    N.reset(script="emit+finish" if complete_at_init else "emit", on_cancel_raises=bool(inputs.get("on_cancel_raises", False)))
     res: dict[str, object] = {}
 
     def f(proxy):
@@ -576,7 +579,7 @@ def http_cancel(S):
     in_schema = SObj(None, kind="Schema", tag="empty" if producer else "in")
     H["Schema.__eq__"] = lambda S, a, b: (a is b) if isinstance(b, SObj) else (a.fields.get("tag") == "empty")
     resolved = SObj(None, kind="ResolvedCall", output_schema=out_schema, input_schema=in_schema, stream_id="sid")
-    H["_unpack_and_recover_state"] = lambda S, app, token, call_token, state_info, auth: (state, resolved, b"call-id", b"state-plaintext")
+    H["_unpack_and_recover_state"] = lambda S, app, token, call_token, state_info, auth, *a, **k: (state, resolved, b"call-id", b"state-plaintext")
     H["_record_input"] = lambda S, *a, **k: None
     hook = SObj(None, kind="Hook") if hook_present else None
     H["Hook.on_dispatch_start"] = lambda S, h, *a, **k: S.event("hook_start")
@@ -918,6 +921,7 @@ def http_session(S):
         _ipc_validation="full",
         _pending_batches=[SObj(None, kind="AB", tag="preloaded-by-init") for _ in range(S.choose(2))],
         _finished=finished0,
+        _cancelled=False,  # as __init__ leaves it: cancel() has not been called yet
         _header=None,
         _retry_config=None,
         _compression_level=None,
@@ -934,7 +938,7 @@ def http_session(S):
         S.oblige("O7.http.cancel_request_carries_the_cancel_mark_and_the_state_token", len(posts) == 1 and len(wrote) == 1 and wrote[0][2] is not None and wrote[0][2].fields["d"].get(CANCEL_KEY) is not None and wrote[0][2].fields["d"].get(STATE_KEY) is me0_token, kind="trace")
     n_io = len(S.events("io"))
     second = ["exchange", "cancel", "iterate"][S.choose(3)]
-    S.inputs.update({"second": second, "pending": len(me.fields["_pending_batches"])})
+    S.inputs.update({"second": second, "pending": len(me.fields["_pending_batches"]), "live_on_server": bool(state0) and not finished0})
     if second == "iterate":
         # `for batch in session` after cancel(): the producer analogue of tick() (drive the real generator)
         handed_out = []
